@@ -231,12 +231,12 @@ fn gen_impl_delegation_trait_defs(
                     continue;
                 }
 
-                // `&self`, `&'a self` or the typed `self: &Self` / `self: &'a Self`
+                // `&self`, `&'a self`, `&mut self` or the typed `self: &Self` / `self: &'a Self` / `self: &mut Self`
                 let reference = match trait_fn.entrait_sig.sig.inputs.first() {
                     Some(syn::FnArg::Receiver(receiver)) => match &receiver.reference {
                         Some((and, lifetime)) => Some((*and, lifetime.clone())),
                         None => match receiver.ty.as_ref() {
-                            syn::Type::Reference(reference) if reference.mutability.is_none() => {
+                            syn::Type::Reference(reference) => {
                                 Some((reference.and_token, reference.lifetime.clone()))
                             }
                             _ => None,
